@@ -196,6 +196,30 @@ fn acc(ctx: &mut Ctx, id: u32, name: &str, f: impl FnOnce(&mut Ctx)) {
 
 // ------------------------------------------------------------------------------------ accessor catalogue (reads)
 
+/// View::copy_to_slice into an exact-size, a too-small and a larger buffer
+fn copy_check<V: View + ?Sized>(ctx: &mut Ctx, name: &str, v: &V) {
+    let n = v.as_slice().len();
+    let mut exact = vec![0u8; n];
+    match v.copy_to_slice(&mut exact) {
+        Ok((w, rest)) => {
+            if w.as_slice() != v.as_slice() || !rest.is_empty() {
+                ctx.bad("CopyDiffers", name, format!("{name}: copy_to_slice into an exact-size buffer is not an exact copy"));
+            }
+        }
+        Err(_) => ctx.bad("CopyDiffers", name, format!("{name}: copy_to_slice into an exact-size buffer failed")),
+    }
+    if n > 0 {
+        let mut small = vec![0u8; n - 1];
+        if v.copy_to_slice(&mut small).is_ok() {
+            ctx.bad("SizeExceedsInput", name, format!("{name}: copy_to_slice accepted a buffer one byte too small"));
+        }
+    }
+    let mut big = vec![0xEEu8; n + 5];
+    if let Ok((w, rest)) = v.copy_to_slice(&mut big) {
+        black_box((w.as_slice().len(), rest.len()));
+    }
+}
+
 fn read_info(ctx: &mut Ctx, i: &InfoFieldView) {
     black_box((i.flags(), i.segment_id(), i.timestamp()));
     black_box(format!("{:?}", i));
@@ -274,6 +298,9 @@ fn read_std(ctx: &mut Ctx, p: &StandardPathView) {
         use sciparse::core::convert::ToModel;
         black_box(p.to_model());
     });
+    if ctx.m1.is_empty() {
+        acc(ctx, 111, "std.copy_to_slice", |c| copy_check(c, "std.copy_to_slice", p));
+    }
     acc(ctx, 110, "std.to_boxed", |c| {
         let b = p.to_boxed();
         black_box(b.as_slice().len());
@@ -322,6 +349,15 @@ fn read_path(ctx: &mut Ctx, p: &ScionDpPathViewRef<'_>) {
         black_box(ScionDpPathViewExt::to_model(p));
         let owned = p.to_owned_view();
         black_box(format!("{}", owned));
+        c.inside("path.owned.as_slice", &[]);
+        let mut o2 = owned.clone();
+        let _ = o2.try_reverse();
+        black_box(ScionDpPathViewExt::as_slice(&o2).len());
+        black_box(ScionDpPathViewExt::to_model(&o2));
+        match owned.try_into_reversed() {
+            Ok(r) => black_box(format!("{}", r).len()),
+            Err((r, _)) => black_box(format!("{}", r).len()),
+        };
     });
 }
 fn read_hdr(ctx: &mut Ctx, h: &ScionHeaderView) {
@@ -350,6 +386,7 @@ fn read_hdr(ctx: &mut Ctx, h: &ScionHeaderView) {
         let _ = black_box(ScionPacketHeader::try_from_view(h));
     });
     if ctx.m1.is_empty() {
+        acc(ctx, 9, "hdr.copy_to_slice", |c| copy_check(c, "hdr.copy_to_slice", h));
         // layout annotations rendered on the buffer (debug aid of sciparse::core::debug): once per view, not per mutator
         acc(ctx, 8, "hdr.annotations", |_| {
             use sciparse::header::layout::ScionHeaderLayout;
@@ -452,6 +489,9 @@ fn read_scmpm(ctx: &mut Ctx, s: &ScmpPayloadView) {
     acc(ctx, 212, "scmpm.dst_port", |_| {
         black_box(s.dst_port());
     });
+    if ctx.m1.is_empty() {
+        acc(ctx, 214, "scmpm.copy_to_slice", |c| copy_check(c, "scmpm.copy_to_slice", s));
+    }
     acc(ctx, 213, "scmpm.fmt", |_| {
         black_box(format!("{:?}", s));
         black_box(s.to_boxed().as_slice_boxed().len());
@@ -526,6 +566,9 @@ fn read_raw_pkt(ctx: &mut Ctx, r: &ScionRawPacketView) {
         let _ = black_box(r.src_scion_addr());
         let _ = black_box(r.dst_scion_addr());
     });
+    if ctx.m1.is_empty() {
+        acc(ctx, 17, "raw.copy_to_slice", |c| copy_check(c, "raw.copy_to_slice", r));
+    }
     acc(ctx, 11, "raw.fmt", |_| {
         black_box(format!("{:?}", r));
     });
